@@ -52,7 +52,9 @@ func space(c *mc.Ctx, op string, n int, f func(i int) string) {
 			}
 		}()
 		out[i] = f(i)
-		w.Eval(op, true)
+		if !secondPass {
+			w.Eval(op, true)
+		}
 		if i == 0 {
 			w.Sample(map[string]string{"operation": op, "case": "0", "digest": dg(out[i])})
 		}
@@ -109,7 +111,48 @@ func (z zr) Read(p []byte) (int, error) {
 	return len(p), nil
 }
 
+// run executes the workload TWICE in one process: the second pass must reproduce every digest of the first.  A
+// result that depends on what the process did before (a cache keyed by too little, a pooled scratch object, a lazily
+// built table) shows up as a difference between the passes even when all four backends agree with each other.
 func run(c *mc.Ctx) {
+	workload(c)
+	if c.Replaying() {
+		return
+	}
+	first := lines
+	lines = nil
+	secondPass = true
+	workload(c)
+	second := lines
+	lines = first
+	if len(first) != len(second) {
+		c.Broken("second workload pass produced a different number of digest lines")
+		return
+	}
+	c.Seq("second-pass", 1, func(w *mc.W, _ int) {
+		seen := map[string]bool{}
+		for i := range first {
+			if first[i] != second[i] {
+				op := strings.SplitN(first[i], "|", 2)[0]
+				if !seen[op] {
+					seen[op] = true
+					w.Fail("history-dependent-result/"+op, fmt.Sprintf("the same call gave different results in two passes of one process: %s vs %s", first[i], second[i]), nil)
+				}
+			}
+		}
+		w.Eval("second-pass", true)
+	})
+	if *digestOut != "" {
+		if err := os.WriteFile(*digestOut, []byte(strings.Join(lines, "\n")+"\n"), 0o644); err != nil {
+			c.Broken("cannot write digest stream: " + err.Error())
+		}
+	}
+	c.Rep.Extra["digest_lines"] = len(lines)
+}
+
+var secondPass bool
+
+func workload(c *mc.Ctx) {
 	S := alph.Scalars(c.Seed, true)
 	if c.Thorough {
 		S = alph.Scalars(c.Seed, false)[:300]
@@ -427,7 +470,7 @@ func run(c *mc.Ctx) {
 		o := hx([]byte(sk), []byte(pk), sig, sk.Seed(), sk.Equal(sk), pk.Equal(pk))
 		sigc, e1 := sk.Sign(nil, m, &ed25519.Options{Context: "ctx"})
 		ph := sha512.Sum512(m)
-		sigp, e2 := sk.Sign(nil, ph[:], &ed25519.Options{Hash: crypto.SHA512, Context: "x"})
+		sigp, e2 := sk.Sign(nil, ph[:], &ed25519.Options{Hash: crypto.SHA512, Context: "ctx"})
 		sigr, e3 := sk.Sign(zr{byte(i)}, m, &ed25519.Options{AddedRandomness: true, SelfVerify: true})
 		_, e4 := sk.Sign(nil, m, &ed25519.Options{Hash: crypto.SHA256})
 		o += hx(sigc, e1, sigp, e2, sigr, e3, e4)
@@ -607,10 +650,4 @@ func run(c *mc.Ctx) {
 	})
 
 	_ = binary.LittleEndian
-	if *digestOut != "" && !c.Replaying() {
-		if err := os.WriteFile(*digestOut, []byte(strings.Join(lines, "\n")+"\n"), 0o644); err != nil {
-			c.Broken("cannot write digest stream: " + err.Error())
-		}
-	}
-	c.Rep.Extra["digest_lines"] = len(lines)
 }
